@@ -105,6 +105,7 @@ pub struct Broker {
     pub ping_unanswered: bool,
     /// number of Deliver steps skipped because they would violate conformance
     pub skipped: u32,
+    pub pubrecs_forgotten: u32,
 }
 
 impl Broker {
@@ -146,6 +147,7 @@ impl Broker {
             pings_seen: 0,
             ping_unanswered: false,
             skipped: 0,
+            pubrecs_forgotten: 0,
         }
     }
 
@@ -436,6 +438,15 @@ impl Broker {
                     self.q2_answered.clear();
                     self.b_inflight.clear();
                 }
+                if can_resume && self.plan.lost_pubrecs {
+                    // the PUBRECs of the previous connection "never arrived"
+                    for b in self.b_inflight.iter_mut() {
+                        if b.state == BState::NeedRel {
+                            b.state = BState::AwaitRec;
+                            self.pubrecs_forgotten += 1;
+                        }
+                    }
+                }
                 self.session_exists = true;
                 let p = self.connack_packet(can_resume, 0);
                 let mp = match &p {
@@ -507,13 +518,17 @@ impl Broker {
             OutKind::Pub2 => Packet::PubRec(ack(o.pid)),
             OutKind::Rel => Packet::PubComp(ack(o.pid)),
             OutKind::Sub(n) => {
-                let mut codes = vec![0u8; n.max(1)];
-                codes[0] = reason;
+                // one code per filter: the generated one sits at a position derived from the
+                // identifier, the others are the legal "granted QoS" successes
+                let n = n.max(1);
+                let mut codes: Vec<u8> = (0..n).map(|i| ((o.pid as usize + i) % 3) as u8).collect();
+                codes[(o.pid as usize + reason as usize) % n] = reason;
                 Packet::SubAck { pid: o.pid, props: extra_props(), codes }
             }
             OutKind::Unsub(n) => {
-                let mut codes = vec![0u8; n.max(1)];
-                codes[0] = reason;
+                let n = n.max(1);
+                let mut codes: Vec<u8> = (0..n).map(|i| if (o.pid as usize + i) % 3 == 2 { 0x11 } else { 0 }).collect();
+                codes[(o.pid as usize + reason as usize) % n] = reason;
                 Packet::UnsubAck { pid: o.pid, props: extra_props(), codes }
             }
         }
@@ -1252,22 +1267,50 @@ fn interpret(case: &Case, w: &mut World) {
     }
 }
 
+#[allow(clippy::too_many_arguments)]
+fn publish_via<'a, P: minimq::ToPayload>(
+    w: &mut World,
+    tr: &Tr,
+    conn: &mut Connection<'_, '_, SimIo>,
+    mut p: Publication<'a, P>,
+    spec: &'a PubSpec,
+    props: &'a [Property<'a>],
+    cancel: Option<u16>,
+    op: usize,
+) -> (OpRes, u32, u32) {
+    p = p.qos(qos_of(spec.qos));
+    if spec.retain {
+        p = p.retain();
+    }
+    if !props.is_empty() {
+        p = p.properties(props);
+    }
+    if let Some(c) = &spec.correlate {
+        p = p.correlate(c);
+    }
+    let (out, polls, busy) = w.run(tr, conn.publish(p), cancel, TimePolicy::Frozen);
+    let res = match out {
+        Outcome::Done(Ok(Some(h))) => {
+            w.trace.handle_debug.push(format!("{h:?}"));
+            w.ops_h.push(h);
+            w.trace.handles.push(op);
+            OpRes::Handle(w.ops_h.len() - 1)
+        }
+        Outcome::Done(Ok(None)) => OpRes::Ok,
+        Outcome::Done(Err(e)) => OpRes::Err(ErrKind::from_pub(&e)),
+        Outcome::Cancelled { awaits } => OpRes::Cancelled { awaits },
+        Outcome::Blocked { awaits } => OpRes::Blocked { awaits },
+        Outcome::Watchdog { .. } => OpRes::Watchdog,
+    };
+    (res, polls, busy)
+}
+
 fn do_step(w: &mut World, tr: &Tr, conn: &mut Connection<'_, '_, SimIo>, at: (usize, usize), step: &Step) {
     match step {
         Step::Publish(spec) => {
             let topic = spec.topic.name();
             let payload = spec.payload.bytes();
             let props: Vec<Property<'_>> = spec.props.iter().map(to_property).collect();
-            let mut p = Publication::bytes(&topic, &payload).qos(qos_of(spec.qos));
-            if spec.retain {
-                p = p.retain();
-            }
-            if !props.is_empty() {
-                p = p.properties(&props);
-            }
-            if let Some(c) = &spec.correlate {
-                p = p.correlate(c);
-            }
             let req = Request {
                 op: 0,
                 kind: OpKind::Publish,
@@ -1279,19 +1322,29 @@ fn do_step(w: &mut World, tr: &Tr, conn: &mut Connection<'_, '_, SimIo>, at: (us
             // auto-downgrade a QoS 1/2 request becomes such a publish under Maximum QoS 0.
             let downgraded_to_0 = w.cfg_downgrade && w.broker.announced_max_qos == Some(0);
             let cancel = if spec.qos == 0 || downgraded_to_0 { None } else { spec.cancel };
-            let (out, polls, busy) = w.run(tr, conn.publish(p), cancel, TimePolicy::Frozen);
-            let res = match out {
-                Outcome::Done(Ok(Some(op))) => {
-                    w.trace.handle_debug.push(format!("{op:?}"));
-                    w.ops_h.push(op);
-                    w.trace.handles.push(cx.op);
-                    OpRes::Handle(w.ops_h.len() - 1)
+            let text = std::str::from_utf8(&payload).ok();
+            let (res, polls, busy) = match (spec.via, text) {
+                (1, _) => {
+                    let pl = &payload;
+                    let f = move |buf: &mut [u8]| -> Result<usize, ()> {
+                        buf.fill(0xEE);
+                        if buf.len() < pl.len() {
+                            return Err(());
+                        }
+                        buf[..pl.len()].copy_from_slice(pl);
+                        Ok(pl.len())
+                    };
+                    publish_via(w, tr, conn, Publication::new(&topic, f), spec, &props, cancel, cx.op)
                 }
-                Outcome::Done(Ok(None)) => OpRes::Ok,
-                Outcome::Done(Err(e)) => OpRes::Err(ErrKind::from_pub(&e)),
-                Outcome::Cancelled { awaits } => OpRes::Cancelled { awaits },
-                Outcome::Blocked { awaits } => OpRes::Blocked { awaits },
-                Outcome::Watchdog { .. } => OpRes::Watchdog,
+                (3, _) => {
+                    let f = |buf: &mut [u8]| -> Result<usize, ()> {
+                        buf.fill(0xEE);
+                        Err(())
+                    };
+                    publish_via(w, tr, conn, Publication::new(&topic, f), spec, &props, cancel, cx.op)
+                }
+                (2, Some(t)) => publish_via(w, tr, conn, Publication::text(&topic, t), spec, &props, cancel, cx.op),
+                _ => publish_via(w, tr, conn, Publication::bytes(&topic, &payload), spec, &props, cancel, cx.op),
             };
             w.op_end(tr, cx, res, polls, busy);
         }
